@@ -295,8 +295,10 @@ def main(argv=None):
         ev["coverage"]["evaluations"] = max(n_obl + sum(b.get("evaluations", 0) for b in bounded), 1)
         ev["coverage"]["distinct_nontrivial"] = max(len({f["target"] for f in functions}) + sum(b.get("distinct", 0) for b in bounded), 2)
         ev["coverage"]["rule"] = "obligations generated per path of each function under contract; bounded inputs are boundary-biased random values"
-    os.makedirs(os.path.join(VERIF, "evidence"), exist_ok=True)
-    with open(os.path.join(VERIF, "evidence", f"{prop}.json"), "w") as f:
+    # a run against a scratch copy (PYVC_REPO: seeded changes) must not overwrite the evidence of /repo
+    evdir = os.path.join(VERIF, "evidence") if os.environ.get("PYVC_REPO", "/repo") == "/repo" else os.path.join(VERIF, "work", "scratch_evidence")
+    os.makedirs(evdir, exist_ok=True)
+    with open(os.path.join(evdir, f"{prop}.json"), "w") as f:
         json.dump(ev, f, indent=1, default=str)
     # ---------------------------------------------------------------- report
     print(f"property {prop} tier {a.tier}: {len(functions)} functions/lemmas under contract, "
